@@ -854,9 +854,9 @@
        ,f-res
        (do
          (def ,g (,get ,y :compare))
-         (def ,g-res (if ,g (,- (,g ,y ,x))))
+         (def ,g-res (if ,g (,g ,y ,x)))
          (if ,g-res
-           ,g-res
+           (,- ,g-res)
            (,cmp ,x ,y))))))
 
 (defn compare
